@@ -10,9 +10,11 @@ sys.path.insert(0, str(Path(__file__).resolve().parent.parent / 'translate'))
 import lib  # noqa
 import c07_effects  # noqa
 
-FORMATS_RUNNABLE = ['fistr', 'ucd', 'obj', 'vtk', 'stl', 'vtu', 'polyvtk', 'vtp']
+OTHER = c07_effects.OTHER
+FORMATS_RUNNABLE = ['fistr', 'ucd', 'obj', 'vtk', 'stl', 'vtu', 'polyvtk', 'vtp', OTHER]
 EXT = {'fistr': '', 'ucd': 'inp', 'obj': 'obj', 'vtk': 'vtk', 'stl': 'stl', 'vtu': 'vtu',
-       'polyvtk': 'vtu', 'vtp': 'vtp'}
+       'polyvtk': 'vtu', 'vtp': 'vtp', OTHER: 'xyz'}
+BASELINE_DIR = lib.COQ / 'C07' / 'gen_baseline'
 
 
 # ---------------------------------------------------------------- model in py
@@ -27,73 +29,111 @@ def dir_prefix(s):
     return s[:i + 1] if i >= 0 else ''
 
 
+def with_suffix(s, suf):
+    d, nm = dir_prefix(s), s[len(dir_prefix(s)):]
+    i = nm.rfind('.')
+    stem = nm[:i] if 0 < i < len(nm) - 1 else nm
+    return d + stem + suf
+
+
 def peval(name, p):
     k = p[0]
     if k == 'PName':
         return name
+    if k == 'PIfEnds':
+        return peval(name, p[3]) if peval(name, p[2]).endswith(p[1]) else peval(name, p[4])
     q = peval(name, p[2])
-    if k == 'PAddExt':
-        return q if q.endswith(p[1]) else q + '.' + p[1]
     if k == 'PSuffix':
         return q + p[1]
     if k == 'PSibling':
         return dir_prefix(q) + p[1]
+    if k == 'PWithSuffix':
+        return with_suffix(q, p[1])
     raise AssertionError(k)
 
 
-def match(prog, name, pre, events, raised):
+def match(prog, name, pre, events, raised, abort=False):
     """find an oracle (list of nat) such that running prog reproduces the
     event list and the outcome; returns the oracle or None.  Set-based matcher:
-    m(p, i, created) -> {(outcome, i'): oracle}."""
+    m(p, i, files) -> {(outcome, i', files'): oracle}; files = paths that exist.
+    abort=True: an exception unrelated to the guards ended the run - the events
+    must be a run cut right before its next file event (Model: fuel = Some n)."""
     n = len(events)
     sys.setrecursionlimit(10000)
 
-    def m(p, i, created):
+    def m(p, i, fs):
         k = p[0]
+        if abort and i == n and k in ('Guard', 'Create', 'Append', 'Delete', 'Rename'):
+            return {('X', i, fs): []}
         if k == 'Skip':
-            return {('N', i, created): []}
+            return {('N', i, fs): []}
         if k == 'Return':
-            return {('R', i, created): []}
+            return {('R', i, fs): []}
         if k == 'Raise':
-            return {('X', i, created): []}
+            return {('X', i, fs): []}
         if k == 'Guard':
             q = peval(name, p[1])
             if i < n and events[i] == 'G ' + q:
-                ex = q in pre or q in created
-                return {(('X' if ex else 'N'), i + 1, created): []}
+                return {(('X' if q in fs else 'N'), i + 1, fs): []}
             return {}
         if k in ('Create', 'Append'):
             q = peval(name, p[1])
             tag = 'C ' if k == 'Create' else 'A '
             if i < n and events[i] == tag + q:
-                return {('N', i + 1, created | frozenset([q])): []}
+                return {('N', i + 1, fs | frozenset([q])): []}
+            return {}
+        if k == 'Delete':
+            q = peval(name, p[1])
+            if i < n and events[i] == 'D ' + q:
+                return {('N', i + 1, fs - frozenset([q])): []}
+            return {}
+        if k == 'Rename':
+            a, b = peval(name, p[1]), peval(name, p[2])
+            if i < n and events[i] == f'M {a} -> {b}':
+                f2 = (fs - frozenset([a])) | frozenset([b]) if a in fs else fs - frozenset([b])
+                return {('N', i + 1, f2): []}
             return {}
         if k == 'Seq':
             out = {}
-            for (o, j, c), orc in m(p[1], i, created).items():
+            for (o, j, c), orc in m(p[1], i, fs).items():
                 if o != 'N':
                     out.setdefault((o, j, c), orc)
                 else:
                     for key, orc2 in m(p[2], j, c).items():
                         out.setdefault(key, orc + orc2)
             return out
+        if k == 'Try':
+            out = {}
+            for (o, j, c), orc in m(p[1], i, fs).items():
+                if o != 'X':
+                    out.setdefault((o, j, c), orc)
+                else:
+                    for key, orc2 in m(p[2], j, c).items():
+                        out.setdefault(key, orc + orc2)
+            return out
+        if k == 'Finally':
+            out = {}
+            for (o, j, c), orc in m(p[1], i, fs).items():
+                for (o2, j2, c2), orc2 in m(p[2], j, c).items():
+                    out.setdefault(((o if o2 == 'N' else o2), j2, c2), orc + orc2)
+            return out
         if k == 'If':
             out = {}
-            for key, orc in m(p[1], i, created).items():
+            for key, orc in m(p[1], i, fs).items():
                 out.setdefault(key, [1] + orc)
-            for key, orc in m(p[2], i, created).items():
+            for key, orc in m(p[2], i, fs).items():
                 out.setdefault(key, [0] + orc)
             return out
         if k == 'Call':
             out = {}
-            for (o, j, c), orc in m(p[1], i, created).items():
+            for (o, j, c), orc in m(p[1], i, fs).items():
                 out.setdefault((('N' if o == 'R' else o), j, c), orc)
             return out
         if k == 'Loop':
             # states after exactly t iterations, all Normal
-            out = {('N', i, created): [0]}
-            frontier = {(i, created): []}
-            seen = {(i, created)}
+            out = {('N', i, fs): [0]}
+            frontier = {(i, fs): []}
+            seen = {(i, fs)}
             t = 0
             while frontier and t < 400:
                 t += 1
@@ -112,49 +152,44 @@ def match(prog, name, pre, events, raised):
             return out
         raise AssertionError(k)
 
-    res = m(prog, 0, frozenset())
+    res = m(prog, 0, frozenset(pre))
     for (o, j, c), orc in res.items():
         if j == n and ((o == 'X') == bool(raised)):
             return orc
     return None
 
 
+PEXP_OPS = ('PName', 'PIfEnds', 'PSuffix', 'PSibling', 'PWithSuffix')
+
+
 def all_pexps(p):
     k = p[0]
-    if k in ('Guard', 'Create', 'Append'):
+    if k in ('Guard', 'Create', 'Append', 'Delete'):
         return [p[1]]
+    if k == 'Rename':
+        return [p[1], p[2]]
     out = []
-    for c in p[1:]:
-        if isinstance(c, tuple):
-            out += all_pexps(c)
+    for c in c07_effects.subprogs(p):
+        out += all_pexps(c)
     return out
 
 
-def written_pexps(p):
-    k = p[0]
-    if k in ('Create', 'Append'):
-        return [p[1]]
-    if k == 'Guard':
-        return []
-    out = []
-    for c in p[1:]:
-        if isinstance(c, tuple):
-            out += written_pexps(c)
-    return out
+def to_tuple(x):
+    return tuple(to_tuple(y) for y in x) if isinstance(x, list) else x
 
 
 # ---------------------------------------------------------------- impl runner
-def run_impl(ctx, cases):
-    spec = {'work': str(ctx.scratch / 'work'), 'out': str(ctx.scratch / 'impl_out.json'),
-            'cases': cases}
+def run_impl(ctx, cases, pathfun=None, tag=''):
+    spec = {'work': str(ctx.scratch / 'work'), 'out': str(ctx.scratch / f'impl_out{tag}.json'),
+            'cases': cases, 'pathfun': pathfun or []}
     (ctx.scratch / 'work').mkdir(exist_ok=True)
     r = subprocess.run([lib.PY, str(lib.VERIF / 'harness' / 'c07_impl.py')],
                        input=json.dumps(spec), text=True, capture_output=True,
-                       env=lib.impl_env(), timeout=900)
+                       env=lib.impl_env(), timeout=1500)
     if r.returncode != 0:
         raise RuntimeError('impl runner failed: ' + r.stderr[-2000:])
     res = json.loads(Path(spec['out']).read_text())
-    return {x['id']: x for x in res}
+    return {x['id']: x for x in res['results']}, res['pathfun']
 
 
 def spellings(ft):
@@ -164,8 +199,31 @@ def spellings(ft):
     return ['d/res', 'd/res.' + ext, 'd/res' + ext, 'res', 'new/sub/res', 'd/res.' + ext + '.' + ext]
 
 
-def mesh_for(ft):
-    return 'shell' if ft == 'vtp' else 'solid'
+STEMS = ['res', 'a.b', 'x.v2', '.hid', 'r.', 'm_' , 'p.q.r', 'n']
+
+
+def random_names(ctx, ft, k):
+    """normalised relative names: with / without the extension, the bare letters
+    of the extension glued on, several dots, hidden files, a trailing dot,
+    dotted directories"""
+    ext = EXT[ft] or 'msh'
+    out = []
+    for _ in range(k):
+        stem = ctx.rng.choice(STEMS)
+        tail = ctx.rng.choice(['', '.' + ext, ext, '.' + ext + '.bak', '.' + ext.upper(),
+                               '.tmp', '.' + ext + '.' + ext])
+        d = ctx.rng.choice(['', 'd/', 'd.x/', 'new/sub/', 'd/e.' + ext + '/'])
+        nm = d + stem + tail
+        if nm not in out:
+            out.append(nm)
+    return out
+
+
+def meshes_for(ft):
+    """element-type mixtures: the first is the default of the bulk of the cases"""
+    if ft == 'vtp':
+        return ['shell', 'mixed_shell']
+    return ['solid', 'hexprism', 'mixed_shell']
 
 
 def static_targets(ft, name):
@@ -177,19 +235,74 @@ def static_targets(ft, name):
     return {name, name + '.' + ext}
 
 
-def gen_cases(ctx, cfg):
+def mk_case(cases, ft, name, pre, kw=None, mesh=None, content='marker', second=False, stream='grid'):
+    c = {'id': len(cases), 'format': ft, 'name': name, 'pre': sorted(pre), 'kwargs': kw or {},
+         'mesh': mesh or meshes_for(ft)[0], 'content': content, 'second_call': second,
+         'stream': stream}
+    cases.append(c)
+    return c
+
+
+def probe_cases(ctx, cfg, wide):
+    """phase 1: every (format, spelling, keyword variant, mesh kind) into an empty
+    directory; the paths these runs touch join the candidate pre-existing set"""
+    cases = []
+    nrand = 12 if wide else 3
+    for ft, _ in cfg:
+        names = spellings(ft)
+        for nm in random_names(ctx, ft, nrand):
+            if nm not in names:
+                names.append(nm)
+        for name in names:
+            kws = [{}]
+            if ft == 'fistr':
+                kws = [{}, {'write_msh_only': True}]
+            for kw in kws:
+                mk_case(cases, ft, name, [], kw, second=not kw, stream='probe')
+        for mesh in meshes_for(ft)[1:]:
+            mk_case(cases, ft, spellings(ft)[0], [], mesh=mesh, stream='probe')
+    return cases
+
+
+def touched_paths(r):
+    out = set(r['new'])
+    for e in r['events']:
+        if e[:2] in ('G ', 'C ', 'A ', 'D '):
+            out.add(e[2:])
+        elif e.startswith('M ') and ' -> ' in e:
+            a, b = e[2:].split(' -> ', 1)
+            out |= {a, b}
+    out.discard('None')
+    return out
+
+
+def gen_cases(ctx, cfg, wide, probes, pres):
+    """phase 2: subsets of the candidate paths pre-populated"""
     cases = []
     for ft, prog in cfg:
-        for name in spellings(ft):
-            tg = sorted(set(peval(name, e) for e in all_pexps(prog)) | static_targets(ft, name))
+        names = sorted({c['name'] for c in probes if c['format'] == ft},
+                       key=lambda n: (n not in spellings(ft), n))
+        for name in names:
+            grid = name in spellings(ft)
+            seen = set()
+            for c in probes:
+                if c['format'] == ft and c['name'] == name:
+                    seen |= touched_paths(pres[c['id']])
+            # never pre-populate a path that has to be a directory
+            seen = {q for q in seen if not name.startswith(q + '/')}
+            tg = sorted(set(peval(name, e) for e in all_pexps(prog)) | static_targets(ft, name) | seen)
+            tg = [q for q in tg if not name.startswith(q + '/')]
             subsets = []
-            for r in range(0, min(len(tg), 3) + 1):
+            for r in range(1, min(len(tg), 3 if grid else 1) + 1):
                 subsets += list(itertools.combinations(tg, r))
-            if ctx.tier == 'quick' and len(subsets) > 8:
-                keep = subsets[:1 + len(tg)]
-                rest = subsets[1 + len(tg):]
+            if not wide and len(subsets) > 8:
+                keep = subsets[:len(tg)]
+                rest = subsets[len(tg):]
                 ctx.rng.shuffle(rest)
                 subsets = keep + rest[:3]
+            if not grid and not wide:
+                ctx.rng.shuffle(subsets)
+                subsets = subsets[:2]
             for pre in subsets:
                 kws = [{}]
                 if ft == 'fistr':
@@ -198,10 +311,16 @@ def gen_cases(ctx, cfg):
                 if len(pre) <= 1 and name == spellings(ft)[0]:
                     kws = kws + [dict(k, overwrite=v) for k in kws[:1] for v in (None, 0, False)]
                 for kw in kws:
-                    cases.append({'id': len(cases), 'format': ft, 'name': name,
-                                  'pre': list(pre), 'kwargs': kw, 'mesh': mesh_for(ft),
-                                  # history: a second write of the same object to the same name
-                                  'second_call': not pre and not kw})
+                    mk_case(cases, ft, name, pre, kw, stream='grid' if grid else 'random-name')
+            if name == spellings(ft)[0] or (wide and grid):
+                for q in tg:
+                    # what is in the way: an empty file, the very bytes this call would
+                    # write, the same text with CRLF line ends
+                    for content in ('empty', 'same', 'same-crlf'):
+                        mk_case(cases, ft, name, [q], content=content, stream='content')
+                    # other element-type mixtures
+                    for mesh in meshes_for(ft)[1:]:
+                        mk_case(cases, ft, name, [q], mesh=mesh, stream='mesh')
     return cases
 
 
@@ -217,18 +336,39 @@ def clean_events(ev, name):
     return out
 
 
-def signature_of(case):
+def signature_of(case, changed=()):
     ft, name = case['format'], case['name']
     ext = EXT[ft]
     if ft != 'fistr' and not name.endswith(ext):
         sp = 'name-without-extension'
     else:
         sp = 'other'
-    return {'format': ft, 'spelling': sp}
+    sig = {'format': ft, 'spelling': sp}
+    if changed:
+        # which file was hit, relative to the file the call is about
+        tgt = name if (ft == 'fistr' or name.endswith(ext)) else name + '.' + ext
+        q = sorted(changed)[0]
+        if q == tgt:
+            sig['victim'] = '<target>'
+        elif q.startswith(tgt):
+            sig['victim'] = '<target>' + q[len(tgt):]
+        elif q == name:
+            sig['victim'] = '<name as typed>'
+        else:
+            sig['victim'] = q[len(dir_prefix(q)):]
+    return sig
 
 
-def check_property_on_impl(ctx, cases, res):
-    """the property itself on the implementation's observed behaviour"""
+def case_descr(c):
+    d = {'format': c['format'], 'name': c['name'], 'pre_existing': c['pre'],
+         'kwargs': c['kwargs'], 'mesh': c['mesh'], 'pre_content': c['content'],
+         'overwrite': c['kwargs'].get('overwrite', False)}
+    return d
+
+
+def check_property_on_impl(ctx, cases, res, n_known):
+    """the property itself on the implementation's observed behaviour; ids of
+    the cases that are a listed open finding are appended to n_known"""
     n_bad = 0
     for c in cases:
         r = res[c['id']]
@@ -236,11 +376,9 @@ def check_property_on_impl(ctx, cases, res):
         sec = r.get('second')
         if ok and sec and sec['changed']:
             n_bad += 1
-            sig = dict(signature_of(c), history='second-write-same-object')
+            sig = dict(signature_of(c, sec['changed']), history='second-write-same-object')
             ctx.violation(
-                'impl-violation',
-                {'format': c['format'], 'name': c['name'], 'pre_existing': c['pre'],
-                 'kwargs': c['kwargs'], 'overwrite': False, 'history': 'write twice to the same name'},
+                'impl-violation', dict(case_descr(c), history='write twice to the same name'),
                 'the second write (no overwrite) leaves the files of the first unchanged',
                 {'second_raised': sec['raised'], 'changed': sec['changed']},
                 'C07_existing_files_unchanged / oracle on implementation (second call)',
@@ -249,73 +387,182 @@ def check_property_on_impl(ctx, cases, res):
         if not ok:
             n_bad += 1
             known = ctx.violation(
-                'impl-violation',
-                {'format': c['format'], 'name': c['name'], 'pre_existing': c['pre'],
-                 'kwargs': c['kwargs'], 'overwrite': False},
+                'impl-violation', case_descr(c),
                 'every pre-existing file unchanged',
                 {'raised': r['raised'], 'changed': r['changed'], 'new': r['new'],
                  'events': r['events']},
                 'C07_existing_files_unchanged / oracle on implementation',
-                found_input=True, signature=signature_of(c),
+                found_input=True, signature=signature_of(c, r['changed']),
                 what=f"write('{c['format']}', '{c['name']}') replaced {r['changed']}")
+            if known:
+                n_known.append(c['id'])
     return n_bad
 
 
+REFUTED_HEADER = """(* GENERATED by /verif/harness/c07.py - do not edit.  For each format with an OPEN
+   finding in known_findings.d/C07.json: the property fails in the model on the run the
+   implementation made in this check (empty when there is no open finding). *)
+From Coq Require Import String List.
+Import ListNotations.
+From FV.C07 Require Import Model.
+From FV.C07.gen Require Import WriteCfg.
+Open Scope string_scope.
+
+"""
+
+
+# ---------------------------------------------------------------- baseline
+def cfg_to_json(cfg):
+    return json.dumps([[ft, prog] for ft, prog in cfg], indent=0)
+
+
+def load_baseline():
+    """the last translation of the registered tree, committed: the hand model
+    used when the translator cannot read the tree under test"""
+    raw = json.loads((BASELINE_DIR / 'WriteCfg.json').read_text())
+    cfg = [(ft, to_tuple(prog)) for ft, prog in raw]
+    text = (BASELINE_DIR / 'WriteCfg.v').read_text()
+    if c07_effects.emit(cfg) != text:
+        raise RuntimeError('gen_baseline/WriteCfg.v and WriteCfg.json disagree')
+    return cfg, text
+
+
+def rebaseline():
+    cfg, _ = c07_effects.translate('/repo')
+    BASELINE_DIR.mkdir(exist_ok=True)
+    (BASELINE_DIR / 'WriteCfg.json').write_text(cfg_to_json(cfg))
+    (BASELINE_DIR / 'WriteCfg.v').write_text(c07_effects.emit(cfg))
+    print('baseline written from /repo:', [ft for ft, _ in cfg])
+    return 0
+
+
+# ---------------------------------------------------------------- path functions
+def pathfun_validation(ctx, cfg, wide):
+    """translator validation: the path expressions the translator produces for
+    add_extension_if_needed / str(p)+suffix / p.parent/x / p.with_suffix, evaluated
+    by Model.peval inside Coq, against the Python functions of the tree under test"""
+    rows = []
+    exts = sorted({e for e in EXT.values() if e})
+    n = 400 if wide else 120
+    for _ in range(n):
+        ft = ctx.rng.choice([f for f in EXT if f != 'fistr'])
+        nm = random_names(ctx, ft, 1)[0]
+        rows.append([nm, ctx.rng.choice(exts), ctx.rng.choice(['.tmp', '.bak', '.inp', '']),
+                     ctx.rng.choice(['hecmw_ctrl.dat', 'x'])])
+    return rows
+
+
+def addext_pexp(ext):
+    """what the translator makes of self.add_extension_if_needed(file_name, ext) today"""
+    import ast
+    it = c07_effects.Interp(str(lib.REPO))
+    fd = it.get_class('femio/fem_data.py', 'FEMData')
+    call = ast.parse(f'self.add_extension_if_needed(file_name, {ext!r})', mode='eval').body
+    v = it.ev(call, {'file_name': ('P', ('PName',))}, fd)
+    return v[1] if v[0] == 'P' else None
+
+
+def check_pathfun(ctx, rows, got):
+    items = []
+    skipped = 0
+    for i, ((nm, ext, suf, sib), g) in enumerate(zip(rows, got)):
+        pe = addext_pexp(ext)
+        exp = []
+        if pe is not None and g['addext'] is not None:
+            exp.append((c07_effects.pexp_coq(pe), g['addext']))
+        else:
+            skipped += 1
+        if g['with_suffix'] is not None and suf:
+            exp.append((f'(PWithSuffix {lib.coq_str(suf)} PName)', g['with_suffix']))
+        exp.append((f'(PSibling {lib.coq_str(sib)} PName)', g['sibling']))
+        exp.append((f'(PSuffix {lib.coq_str(suf)} PName)', g['suffix']))
+        conj = ' && '.join(f'String.eqb (peval {lib.coq_str(nm)} {pe_}) {lib.coq_str(v)}'
+                           for pe_, v in exp)
+        items.append(f'({i}, {conj})')
+    txt = ['From Coq Require Import String List Bool. Import ListNotations.',
+           'From FV.C07 Require Import Model.', 'Open Scope string_scope.',
+           'Set Printing Width 100000.',
+           'Definition cases : list (nat * bool) := [', ';\n'.join(items) + '].',
+           'Goal True. idtac "@@ failing". Abort.',
+           'Eval vm_compute in map fst (filter (fun c => negb (snd c)) cases).']
+    rc, out, err = ctx.coq_eval('PathFun', '\n'.join(txt) + '\n', timeout=600)
+    import re
+    if rc != 0:
+        return list(range(len(rows))), skipped
+    t = lib.parse_marked(out).get('failing', '').split(':')[0]
+    return [int(x) for x in re.findall(r'\d+', t)], skipped
+
+
+# ---------------------------------------------------------------- main
 def main(ctx):
-    ctx.rule = ('every output format x spelling of the target name x subset (<=3 files) of the '
-                'paths the translated program may touch pre-populated; a case is non-trivial when '
-                'at least one file pre-exists or the call creates a file; distinct = distinct '
-                '(format, name, pre-existing set, kwargs)')
+    ctx.rule = ('every output format (and an unknown one) x spelling of the target name (fixed '
+                'grid + random dotted / hidden / extension-letter names) x subset (<=3 files) of '
+                'the paths the translated program, a static list, or a traced run into an empty '
+                'directory touches, pre-populated (marker bytes / empty / the very output / its '
+                'CRLF form) x element-type mixture x falsy overwrite spellings x second write; a '
+                'case is non-trivial when at least one file pre-exists or the call creates a '
+                'file; distinct = distinct (format, name, pre-existing set, kwargs, mesh, content)')
     ctx.trusted += [
         'translator /verif/translate/c07_effects.py (fail-closed Python-ast abstract interpreter)',
         'stubs for the absent stl/tvtk packages in harness/c07_impl.py (their writers create the '
-        'file they are handed); meshio.write, open(), Path.exists traced by monkey-patching',
+        'file they are handed); open(), os.open, Path.exists, os.path.exists, os.unlink/remove/'
+        'rename/replace traced by monkey-patching',
         'untrusted Python search for the oracle of each run; the run is verified by evaluating '
         'Model.run in Coq (vm_compute)',
     ]
     ctx.assumptions += ['files are only written through open()/the third-party writer handed the '
-                        'path; directories are not files', 'overwrite=False throughout']
-    # 1. translate
-    tie_ok = True
+                        'path; directories are not files', 'overwrite falsy throughout',
+                        'target names are normalised relative paths (no //, ./, trailing /)']
+    # 1. translate; if the translator cannot read the tree: baseline model (tie H)
+    tie = 'T'
     cfg = None
+    open_formats = sorted({f['match']['format'] for f in ctx.findings
+                           if f.get('property') == 'C07' and f.get('status') == 'open'
+                           and 'format' in f.get('match', {})})
     try:
         cfg, consumed = c07_effects.translate(str(lib.REPO))
         ctx.sources = consumed
-        lib.write_if_changed(lib.COQ / 'C07' / 'gen' / 'WriteCfg.v', c07_effects.emit(cfg))
-    except c07_effects.TranslateError as e:
-        tie_ok = False
-        ctx.log('translator failed closed:', e)
-        ctx.notes['translator_error'] = str(e)
-    except SyntaxError as e:
-        tie_ok = False
-        ctx.notes['translator_error'] = 'syntax error: ' + str(e)
+    except (c07_effects.TranslateError, SyntaxError, RecursionError) as e:
+        tie = 'H'
+        ctx.log('translator cannot read the tree:', e)
+        ctx.notes['translator_error'] = f'{type(e).__name__}: {e}'
+        cfg, _ = load_baseline()
+    text = c07_effects.emit(cfg, open_formats)
+    lib.write_if_changed(lib.COQ / 'C07' / 'gen' / 'WriteCfg.v', text)
+    refuted_v = lib.COQ / 'C07' / 'gen' / 'Refuted.v'
+    lib.write_if_changed(refuted_v, REFUTED_HEADER + '(* nothing to refute in this run *)\n')
+    wide = ctx.tier == 'thorough' or tie == 'H'
+    ctx.notes['open_finding_formats'] = open_formats
+    try:
+        bcfg, btext = load_baseline()
+        ctx.notes['baseline_matches_translation'] = (bcfg == cfg)
+    except Exception as e:  # noqa
+        ctx.notes['baseline_matches_translation'] = f'baseline unreadable: {e}'
+    ctx.notes['addext_translation_is_Model_PAddExt'] = all(
+        addext_pexp(e) == ('PIfEnds', e, ('PName',), ('PName',), ('PSuffix', '.' + e, ('PName',)))
+        for e in sorted({x for x in EXT.values() if x}))
 
-    # 2. proofs
-    proof_ok = False
-    if tie_ok:
-        proof_ok, log = ctx.build_props('C07/Props.v')
-        if not proof_ok:
-            ctx.notes['build_log_tail'] = log[-1500:]
-        elif ctx.tier == 'thorough':
-            ctx.coqchk('C07/Props.v')
-    else:
-        for n in lib.theorem_names(lib.COQ / 'C07' / 'Props.v'):
-            ctx.obligations.append({'name': n, 'discharged': False, 'assumptions': [],
-                                    'note': 'translator failed closed'})
+    # 2. proofs (against the translated program, or the baseline program)
+    proof_ok, log = ctx.build_props('C07/Props.v')
+    if not proof_ok:
+        ctx.notes['build_log_tail'] = log[-1500:]
+    elif ctx.tier == 'thorough':
+        ctx.coqchk('C07/Props.v')
 
     # 3. model witness when the per-run obligation fails
     model_witnesses = []
-    if tie_ok and not proof_ok:
+    if not proof_ok:
         ok, log, _ = lib.coq_make(['C07/gen/WriteCfg.vo'])
         if ok:
-            names = ['d/res', 'res', 'd/res.msh']
+            names = ['d/res', 'res', 'd/res.msh', 'd/res.inp']
             txt = ['From Coq Require Import String List. Import ListNotations.',
                    'From FV.C07 Require Import Model.', 'From FV.C07.gen Require Import WriteCfg.',
                    'Open Scope string_scope.', 'Set Printing Width 2000.',
                    'Definition oracles : list (list nat) := [[]; repeat 1 400].']
             for ft, _ in cfg:
                 txt.append(f'Goal True. idtac "@@ {ft}". Abort.')
-                txt.append(f'Eval vm_compute in (prog_ok prog_{ft}, find_witness prog_{ft} '
+                txt.append(f'Eval vm_compute in (prog_ok {c07_effects.prog_name(ft)}, find_witness '
+                           f'{c07_effects.prog_name(ft)} '
                            f'{lib.coq_list([lib.coq_str(n) for n in names])} oracles).')
             rc, out, err = ctx.coq_eval('Witness', '\n'.join(txt) + '\n')
             parts = lib.parse_marked(out)
@@ -328,96 +575,159 @@ def main(ctx):
                                             mm.group(2) if mm else None))
             ctx.notes['model_witnesses'] = model_witnesses
 
-    # 4. implementation: correspondence + property oracle
-    if cfg is None:
-        # tie broken: case generation falls back to the static target list
-        cfg = [(ft, ('Skip',)) for ft in FORMATS_RUNNABLE]
-    cases = gen_cases(ctx, cfg)
+    # 4. implementation: probes, then correspondence + property oracle
+    probes = probe_cases(ctx, cfg, wide)
+    rows = pathfun_validation(ctx, cfg, wide)
+    pres, pf_got = run_impl(ctx, probes, pathfun=rows, tag='_probe')
+    cases2 = gen_cases(ctx, cfg, wide, probes, pres)
     # model witnesses are replayed first
     for ft, nm, q in model_witnesses:
         if nm is not None:
-            cases.append({'id': len(cases), 'format': ft, 'name': nm, 'pre': [q], 'kwargs': {},
-                          'mesh': mesh_for(ft), 'from_model': True})
-    res = run_impl(ctx, cases)
+            mk_case(cases2, ft, nm, [q], stream='model-witness')
+    res2, _ = run_impl(ctx, cases2)
+    # one list of cases
+    cases = list(probes)
+    res = dict(pres)
+    for c in cases2:
+        r = res2[c['id']]
+        c['id'] = len(cases)
+        r['id'] = c['id']
+        cases.append(c)
+        res[c['id']] = r
     for c in cases:
         r = res[c['id']]
         ctx.count('format:' + c['format'])
         ctx.count('n_pre:%d' % len(c['pre']))
+        ctx.count('stream:' + c['stream'])
+        ctx.count('mesh:' + c['mesh'])
+        ctx.count('content:' + c['content'])
         ctx.count('raised' if r['raised'] else 'succeeded')
-        ctx.case([c['format'], c['name'], c['pre'], c['kwargs']],
+        ctx.case([c['format'], c['name'], c['pre'], c['kwargs'], c['mesh'], c['content']],
                  nontrivial=bool(c['pre']) or bool(r['new']),
                  sample={'format': c['format'], 'name': c['name'], 'pre_existing': c['pre'],
                          'kwargs': c['kwargs'], 'impl': {k: r[k] for k in ('raised', 'events', 'changed', 'new')}})
-    n_bad = check_property_on_impl(ctx, cases, res)
+    known_ids = []
+    n_bad = check_property_on_impl(ctx, cases, res, known_ids)
     ctx.notes['search_evaluations'] = len(cases)
     ctx.notes['impl_property_failures'] = n_bad
 
-    # 5. correspondence: every observed run is a run of the translated program
+    # 4b. translator validation of the path functions
+    pf_bad, pf_skipped = check_pathfun(ctx, rows, pf_got)
+    ctx.notes['path_function_validation'] = {'cases': len(rows), 'disagreements': len(pf_bad),
+                                             'add_extension_not_translated': pf_skipped}
+    for i in pf_bad[:3]:
+        ctx.violation('correspondence', {'name': rows[i][0], 'ext': rows[i][1], 'suffix': rows[i][2],
+                                         'sibling': rows[i][3]},
+                      'Model.peval of the translated path expression = the Python path function',
+                      pf_got[i], 'path-function validation (Model.peval)', found_input=False,
+                      signature={'kind': 'path-function', 'name': rows[i][0]},
+                      what='the model computes another file name than the implementation')
+
+    # 5. correspondence: every observed run is a run of the model program
     progs = dict(cfg)
     corr_lines = []
     unmatched = []
-    if tie_ok:
-        for c in cases:
-            r = res[c['id']]
-            ev = clean_events(r['events'], c['name'])
-            prog = progs[c['format']]
-            orc = match(prog, c['name'], set(c['pre']), ev, r['raised'])
-            if orc is None:
-                unmatched.append(c['id'])
-                continue
-            corr_lines.append((c['id'], c['format'], c['name'], c['pre'], orc, r['raised'], ev))
-        ok, log, _ = lib.coq_make(['C07/gen/WriteCfg.vo'])
-        bad_ids = list(unmatched)
-        if ok and corr_lines:
-            txt = ['From Coq Require Import String List. Import ListNotations.',
-                   'From FV.C07 Require Import Model.', 'From FV.C07.gen Require Import WriteCfg.',
-                   'Open Scope string_scope.', 'Set Printing Width 100000.',
-                   'Definition cases : list (nat * bool) := [']
-            items = []
-            for (i, ft, nm, pre, orc, raised, ev) in corr_lines:
-                items.append(
-                    f'({i}, reproduces {lib.coq_str(nm)} prog_{ft} '
-                    f'{lib.coq_list([lib.coq_str(q) for q in pre])} '
-                    f'{lib.coq_list([str(x) for x in orc])} {raised} '
-                    f'{lib.coq_list([lib.coq_str(e) for e in ev])})')
-            txt.append(';\n'.join(items) + '].')
-            txt.append('Goal True. idtac "@@ failing". Abort.')
-            txt.append('Eval vm_compute in map fst (filter (fun c => negb (snd c)) cases).')
-            rc, out, err = ctx.coq_eval('Corr', '\n'.join(txt) + '\n', timeout=900)
-            if rc != 0:
-                ctx.log('correspondence file failed to compile', err[-500:])
-                bad_ids += [x[0] for x in corr_lines]
-            else:
-                import re
-                t = lib.parse_marked(out).get('failing', '')
-                t = t.split(':')[0]
-                bad_ids += [int(x) for x in re.findall(r'\d+', t)]
-        ctx.corr = {'cases': len(cases), 'verified_in_coq': len(corr_lines) - (len(bad_ids) - len(unmatched)),
-                    'disagreements': len(bad_ids)}
-        for i in bad_ids[:5]:
-            c = cases[i]
-            r = res[i]
-            # a disagreement by itself is not a violation of the property; it
-            # breaks the tie.  Report with the failing input if the property
-            # fails on it (already reported above), else as tie-broken.
-            if not r['changed']:
-                ctx.violation('correspondence',
-                              {'format': c['format'], 'name': c['name'], 'pre_existing': c['pre'],
-                               'kwargs': c['kwargs']},
-                              'the observed event sequence is a run of the translated program',
-                              {'raised': r['raised'], 'events': r['events'], 'exc': r['exc']},
-                              'correspondence C07 (Model.reproduces)', found_input=False,
-                              signature={'format': c['format'], 'kind': 'correspondence'},
-                              what='implementation run not reproduced by the model')
-    # 6. proof / tie broken without a failing input
-    if not tie_ok and n_bad == 0:
-        ctx.violation('tie-broken', {'translator_error': ctx.notes.get('translator_error')},
-                      'translator accepts FEMData.write and the writers', 'fail-closed',
-                      'translator c07_effects (C07_cfg_ok cannot be regenerated)',
-                      found_input=False, signature={'kind': 'tie-broken'})
-    if tie_ok and not proof_ok and n_bad == 0:
+    for c in cases:
+        r = res[c['id']]
+        ev = clean_events(r['events'], c['name'])
+        prog = progs[c['format']]
+        orc = match(prog, c['name'], set(c['pre']), ev, r['raised'])
+        fu = 'None'
+        if orc is None and r['raised'] and 'already exists' not in r['exc']:
+            # an exception that is not a refusal (a mesh the writer cannot handle ...)
+            orc = match(prog, c['name'], set(c['pre']), ev, r['raised'], abort=True)
+            fu = f'(Some {len(ev)})'
+            ctx.count('run cut by an unrelated exception')
+        if orc is None:
+            unmatched.append(c['id'])
+            continue
+        corr_lines.append((c['id'], c['format'], c['name'], c['pre'], orc, r['raised'], ev, fu))
+        c['oracle'], c['fuel'] = orc, fu
+    ok, log, _ = lib.coq_make(['C07/gen/WriteCfg.vo'])
+    bad_ids = list(unmatched)
+    chunk = 400
+    for k in range(0, len(corr_lines), chunk):
+        part = corr_lines[k:k + chunk]
+        if not ok:
+            bad_ids += [x[0] for x in part]
+            continue
+        txt = ['From Coq Require Import String List. Import ListNotations.',
+               'From FV.C07 Require Import Model.', 'From FV.C07.gen Require Import WriteCfg.',
+               'Open Scope string_scope.', 'Set Printing Width 100000.',
+               'Definition cases : list (nat * bool) := [']
+        items = []
+        for (i, ft, nm, pre, orc, raised, ev, fu) in part:
+            items.append(
+                f'({i}, reproduces {lib.coq_str(nm)} {c07_effects.prog_name(ft)} '
+                f'{lib.coq_list([lib.coq_str(q) for q in pre])} '
+                f'{lib.coq_list([str(x) for x in orc])} {fu} {raised} '
+                f'{lib.coq_list([lib.coq_str(e) for e in ev])})')
+        txt.append(';\n'.join(items) + '].')
+        txt.append('Goal True. idtac "@@ failing". Abort.')
+        txt.append('Eval vm_compute in map fst (filter (fun c => negb (snd c)) cases).')
+        rc, out, err = ctx.coq_eval(f'Corr{k // chunk}', '\n'.join(txt) + '\n', timeout=900)
+        if rc != 0:
+            ctx.log('correspondence file failed to compile', err[-500:])
+            bad_ids += [x[0] for x in part]
+        else:
+            import re
+            t = lib.parse_marked(out).get('failing', '')
+            t = t.split(':')[0]
+            bad_ids += [int(x) for x in re.findall(r'\d+', t)]
+    ctx.corr = {'cases': len(cases), 'verified_in_coq': len(corr_lines) - (len(bad_ids) - len(unmatched)),
+                'disagreements': len(bad_ids) + len(pf_bad), 'path_function_cases': len(rows)}
+    if tie == 'T':
+        ctx.notes['tie'] = 'T (effect programs re-translated from the tree under test) + trace correspondence'
+    else:
+        ctx.notes['tie'] = (f"H (translator could not read the tree: {ctx.notes['translator_error']}; "
+                            f"baseline model + widened correspondence, {len(cases)} cases)")
+    for i in bad_ids[:5]:
+        c = cases[i]
+        r = res[i]
+        # a disagreement by itself is not a violation of the property; it
+        # breaks the tie.  Report with the failing input if the property
+        # fails on it (already reported above), else as tie-broken.
+        if not r['changed']:
+            ctx.violation('correspondence', case_descr(c),
+                          'the observed event sequence is a run of the ' +
+                          ('translated' if tie == 'T' else 'baseline') + ' program',
+                          {'raised': r['raised'], 'events': r['events'], 'exc': r['exc'],
+                           'tie': ctx.notes['tie']},
+                          'correspondence C07 (Model.reproduces)', found_input=False,
+                          signature={'format': c['format'], 'kind': 'correspondence'},
+                          what='implementation run not reproduced by the model')
+    # 5b. open known findings: the model exhibits them too (machine-checked refutation of
+    #     the property for that format, on the run the implementation just made)
+    ref = []
+    done = set()
+    for i in known_ids:
+        c = cases[i]
+        if c['format'] in done or 'oracle' not in c or i in bad_ids:
+            continue
+        done.add(c['format'])
+        q = res[i]['changed'][0]
+        nm = 'C07_refuted_' + c07_effects.prog_name(c['format'])[5:]
+        ref.append(
+            f'(* write({c["format"]!r}, {c["name"]!r}) with {c["pre"]} present: the implementation '
+            f'changed {res[i]["changed"]};\n   this is the same run in the model *)\n'
+            f'Theorem {nm} :\n  exists (name : string) (f0 : fsys) (o : list nat) (q : string) c,\n'
+            f'    f0 q = Some c /\\ fs (snd (run name {c07_effects.prog_name(c["format"])} '
+            f'(init_st f0 o))) q <> Some c.\nProof.\n'
+            f'  exists {lib.coq_str(c["name"])}, (fs_of_list '
+            f'{lib.coq_list([lib.coq_str(x) for x in c["pre"]])}), '
+            f'{lib.coq_list([str(x) for x in c["oracle"]])}, {lib.coq_str(q)}, 0.\n'
+            f'  split; vm_compute; [reflexivity|discriminate].\nQed.\n')
+    if ref:
+        lib.write_if_changed(refuted_v, REFUTED_HEADER + '\n'.join(ref))
+        rok, rlog = ctx.build_props('C07/gen/Refuted.v', scan_dirs=[lib.COQ / 'C07'])
+        ctx.notes['refuted'] = {'theorems': lib.theorem_names(refuted_v), 'checked': rok}
+        if not rok:
+            ctx.notes['refuted']['log'] = rlog[-800:]
+
+    # 6. proof broken without a failing input
+    if not proof_ok and n_bad == 0:
         bad = [o['name'] for o in ctx.obligations if not o['discharged']]
-        ctx.violation('proof-broken', {'model_witnesses': model_witnesses},
+        ctx.violation('proof-broken', {'model_witnesses': model_witnesses, 'tie': ctx.notes['tie']},
                       'C07_cfg_ok by vm_compute', 'does not check',
                       ', '.join(bad), found_input=False, signature={'kind': 'proof-broken'})
     ctx.exhaustive = ctx.tier == 'thorough'
@@ -431,19 +741,23 @@ def replay(path):
     if 'format' not in c:
         print('nothing to replay on the implementation: ', json.dumps(rp, indent=1))
         return 1
-    case = {'id': 0, 'format': c['format'], 'name': c['name'], 'pre': c['pre_existing'],
-            'kwargs': c.get('kwargs', {}), 'mesh': mesh_for(c['format'])}
-    r = run_impl(ctx, [case])[0]
+    cases = []
+    kw = dict(c.get('kwargs', {}))
+    case = mk_case(cases, c['format'], c['name'], c['pre_existing'], kw, mesh=c.get('mesh'),
+                   content=c.get('pre_content', 'marker'),
+                   second=c.get('history') == 'write twice to the same name')
+    r = run_impl(ctx, [case])[0][0]
     print('implementation:', json.dumps(r))
     try:
         cfg, _ = c07_effects.translate(str(lib.REPO))
-        prog = dict(cfg)[c['format']]
-        orc = match(prog, c['name'], set(c['pre_existing']), clean_events(r['events'], c['name']),
-                    r['raised'])
-        print('model oracle reproducing this run:', orc)
     except c07_effects.TranslateError as e:
-        print('translator failed closed:', e)
-    bad = bool(r['changed'])
+        print('translator cannot read the tree:', e, '- using the baseline model')
+        cfg, _ = load_baseline()
+    prog = dict(cfg)[c['format']]
+    orc = match(prog, c['name'], set(c['pre_existing']), clean_events(r['events'], c['name']),
+                r['raised'])
+    print('model oracle reproducing this run:', orc)
+    bad = bool(r['changed']) or bool(r.get('second') and r['second']['changed'])
     print('property', 'VIOLATED' if bad else 'holds', 'on this input')
     return 1 if bad else 0
 
@@ -451,5 +765,7 @@ def replay(path):
 if __name__ == '__main__':
     if len(sys.argv) > 2 and sys.argv[1] == 'replay':
         sys.exit(replay(sys.argv[2]))
+    if len(sys.argv) > 1 and sys.argv[1] == 'rebaseline':
+        sys.exit(rebaseline())
     tier = sys.argv[1] if len(sys.argv) > 1 else 'quick'
     sys.exit(main(lib.Ctx('C07', tier)))
